@@ -172,7 +172,7 @@ def rejection_classes(ctx, prog, rid, eff):
     if not app:
         ctx.missing(rid, 'HnswBackend::insert: WAL append')
         return
-    first_app = [min(app)]
+    first_app = [util.first_in_flow(ins, app)]
     oi = flow.Origin(ins)
     have_finite = False
     for cls in [c for c, _ in CLASSES]:
@@ -401,7 +401,7 @@ def run(ctx, prog):
         if not apps:
             ctx.missing('C03.R6', '%s: WAL append' % name)
             continue
-        first = apps[0]
+        first = util.first_in_flow(f, apps)
         a_succ = eff.success_edges(f, [first])
         applies = [bb for bb, a in lm6.body_acqs.get(f.id, {}).items() if a.cls == 'HnswBackend.doc_store' and a.mode in ('W', 'U') and bb in f.reach([e[1] for e in a_succ])]
         comp_succ = eff.success_edges(f, [x for x in apps if x != first])
